@@ -387,6 +387,6 @@ HARNESSES = [
     Harness("inferred_sexes", h_infer, [{"with_anti": True}, {"with_anti": False}, {"with_anti": True, "empty_anti": True}, {"with_anti": True, "stated": False}, {"with_anti": False, "stated": True}], covers=["reached", "antitarget call only", "calls disagree"], wall_s=300),
     Harness("depth_only_corrected", h_depth_only_corrected, [{"n_samples": 2}, {"n_samples": 3, "tier": "thorough"}], covers=["reached"], wall_s=400, thorough_wall_s=1500),
     Harness("consensus_outlier", h_consensus, [{"n": n, "side": sd} for n in (3, 4) for sd in ("low", "high")] + [{"n": n, "side": sd, "family": "depth_only"} for n in (3, 4) for sd in ("low", "high")], covers=["reached"], wall_s=300, query_timeout_ms=60000),
-    Harness("gc_rmask", h_gc, [{"L": 0}, {"L": 1}, {"L": 3}, {"L": 4}, {"L": 6, "tier": "thorough"}], covers=["all ambiguous", "mixed case"], wall_s=200, thorough_wall_s=900),
+    Harness("gc_rmask", h_gc, [{"L": 0}, {"L": 1}, {"L": 3}, {"L": 4}, {"L": 6, "tier": "thorough"}], covers=["all ambiguous", "mixed case"], wall_s=200, thorough_wall_s=1500, query_timeout_ms=60000),
     Harness("fasta_slice", h_slice, [{}], covers=["reached"]),
 ]
